@@ -186,6 +186,7 @@ fn gen_app(seed: u64, family: &str, tier: Tier) -> Case {
         w.input_plugins.push(p);
     }
     w.text_variant = *r.pick(&[0u8, 0, 0, 1, 2]);
+    w.gz_members = *r.pick(&[0u8, 0, 0, 2, 3]);
     w.explicit_counts = r.chance(0.4);
     w.parallelism = 1;
     let nq = r.range(2, 8) as usize;
@@ -221,6 +222,9 @@ fn gen_app(seed: u64, family: &str, tier: Tier) -> Case {
         simcfg.io_fault_rate = *r.pick(&[0.02, 0.1, 0.4, 0.9]);
     } else {
         simcfg.faults = sim::F_SHORT_READ | *r.pick(&[sim::F_EIO_READ, sim::F_TRUNC_READ, sim::F_BITFLIP_READ, sim::F_EOPEN]);
+        if w.gz_members >= 2 && simcfg.faults & sim::F_TRUNC_READ != 0 {
+            simcfg.faults = sim::F_SHORT_READ | sim::F_EIO_READ;
+        }
         simcfg.io_fault_rate = *r.pick(&[0.02, 0.1, 0.3]);
         simcfg.max_hard_faults = 1;
         simcfg.trunc_paths = vec![".gz".into()];
@@ -475,6 +479,7 @@ impl Check for C15 {
         w.gz_misnamed = r.chance(0.15);
         w.text_variant = *r.pick(&[0u8, 0, 0, 1, 2]);
         w.csv_blank_lines = *r.pick(&[0u8, 0, 0, 1, 2]);
+        w.gz_members = *r.pick(&[0u8, 0, 0, 2, 3]);
         w.explicit_counts = r.chance(0.4);
         let mut simcfg = sim::SimCfg::default();
         simcfg.sched = sim::SchedMode::Cooperative;
@@ -485,6 +490,10 @@ impl Check for C15 {
             }
             "hard" => {
                 simcfg.faults = sim::F_SHORT_READ | sim::F_EINTR_READ | *r.pick(&[sim::F_EIO_READ, sim::F_TRUNC_READ, sim::F_BITFLIP_READ, sim::F_EOPEN, sim::F_EIO_READ, sim::F_TRUNC_READ]);
+                if w.gz_members >= 2 && simcfg.faults & sim::F_TRUNC_READ != 0 {
+                    // (a file of several members cut exactly between two of them is a valid, shorter file)
+                    simcfg.faults = sim::F_SHORT_READ | sim::F_EINTR_READ | sim::F_EIO_READ;
+                }
                 simcfg.io_fault_rate = *r.pick(&[0.05, 0.2, 0.5]);
                 simcfg.max_hard_faults = 1;
                 // truncation and flipped bits are only detectable (and only injected) on gzip streams
